@@ -627,10 +627,10 @@ package iscp
 //@   forbid[C04] write Downstream.resultAckBuffer
 //@   forbid[C04] write Downstream.dataIDAckBuffer
 //@   forbid[C04] write Downstream.upstreamInfoAckBuffer
-//@   assert call SubscribeDownstreamChunk$: arg0 == d.wireConn && arg2 == d.idAlias
-//@   assert call SubscribeDownstreamChunkAckComplete: arg0 == d.wireConn && arg2 == d.idAlias
+//@   assert call SubscribeDownstreamChunk$: arg0 == wireConn && arg2 == d.idAlias
+//@   assert call SubscribeDownstreamChunkAckComplete: arg0 == wireConn && arg2 == d.idAlias
 //@   assert call subscribeDownstreamMetadata: arg2 == d.idAlias
-//@   assert call SendDownstreamResumeRequest: arg0 == d.wireConn && arg2 != nil && arg2.StreamID == d.ID && arg2.DesiredStreamIDAlias == d.idAlias
+//@   assert call SendDownstreamResumeRequest: arg0 == wireConn && arg2 != nil && arg2.StreamID == d.ID && arg2.DesiredStreamIDAlias == d.idAlias
 
 // ---------------------------------------------------------------- C09: lock discipline
 //@ guarded[C09] inmemSentStorage.RWMutex: buf
@@ -638,7 +638,7 @@ package iscp
 //@ guarded[C09] Conn.upstreamCallAckMu: upstreamCallAckCh
 //@ guarded[C09] Conn.replyCallsChsMu: replyCallChs
 //@ guarded[C09] Upstream.mu: sendBuffer, sendBufferPayloadSize, sendBufferDataPointsCount, upstreamChunkResultChs, revDataIDAliases, dataIDAliases
-//@ guarded[C09] Downstream.mu: dataIDAliases, revDataIDAliases, upstreamInfos, upstreamInfoAckBuffer, dataIDAckBuffer, resultAckBuffer
+//@ guarded[C09] Downstream.mu: dataIDAliases, revDataIDAliases, upstreamInfos, upstreamInfoAckBuffer, dataIDAckBuffer, resultAckBuffer, wireConn
 
 // ---------------------------------------------------------------- C03 / C04: ReadDataPoints
 // Once a chunk has been taken from the stream's channel it is either returned (resolved) and
